@@ -29,6 +29,17 @@ func register(m map[string]externalFn) {
 }
 
 func (i *interpreter) lookupIntrinsic(fn *ssa.Function) externalFn {
+	if len(i.cfg.Stubs) > 0 {
+		if target, ok := i.cfg.Stubs[fn.String()]; ok {
+			tf := i.h.Pkg.Func(target)
+			if tf == nil {
+				panic(unsupported("stub target not found: " + target))
+			}
+			return func(fr *frame, args []value) value {
+				return fr.i.callSSA(fr.caller, token.NoPos, tf, args, nil)
+			}
+		}
+	}
 	if v, ok := intrinsicCache.Load(fn); ok {
 		f, _ := v.(externalFn)
 		return f
@@ -195,6 +206,9 @@ func init() {
 }
 
 func (i *interpreter) assume(c *Term) {
+	if i.sub != nil {
+		panic(summaryAbort{"assume inside a summarised callee"})
+	}
 	if c.IsConst() {
 		if c.val == 0 {
 			panic(pathEnd{&PathResult{Kind: "dropped", Msg: "assume(false)"}})
